@@ -57,6 +57,10 @@ def cases(draw, procs=False):
         for node in _case_nodes(m['tree']):
             if draw(st.integers(0, 5)) == 0:
                 node['falsy'] = True
+    # two test objects of one class and method in one suite (they compare equal; both are tests)
+    if not procs and draw(st.integers(0, 5)) == 0:
+        tests = [t for _, t in gen.iter_tests(spec)]
+        tests[draw(st.integers(0, len(tests) - 1))]['twice'] = True
     nested = False
     if not procs and draw(st.integers(0, 5)) == 0:
         # a test that drives the test runner itself, in process, with a shuffle of its own
@@ -200,6 +204,8 @@ class InProc(Part):
             labels.append('implicit-seed')
         if o.get('nested'):
             labels.append('nested-shuffled-run')
+        if any(t.get('twice') for _, t in gen.iter_tests(spec)):
+            labels.append('equal-test-objects')
         return Outcome(viol, labels, big >= 2 and moved)
 
 
